@@ -63,18 +63,28 @@ mod n {
         let empty = tmp_dir("c01-empty");
         let other = tmp_dir("c01-other");
         std::fs::write(other.join("notas.txt"), "sin proyecto\n").unwrap();
+        // directories whose project the library rejects: the .ctehexml of `cubo` cut in half, and with its first wall's
+        // construction renamed (a broken reference)
+        let cut = tmp_dir("c01-cut");
+        let broken = tmp_dir("c01-broken");
+        if let Some(cubo) = dirs.iter().find(|d| d.file_name().map(|n| n == "cubo").unwrap_or(false)) {
+            let text = std::fs::read_to_string(ctehexml_of(cubo).unwrap()).unwrap_or_default();
+            let half = text.char_indices().nth(text.chars().count() / 2).map(|x| x.0).unwrap_or(0);
+            std::fs::write(cut.join("cubo.ctehexml"), &text[..half]).unwrap();
+            std::fs::write(broken.join("cubo.ctehexml"), text.replacen("CONSTRUCTION  = \"", "CONSTRUCTION  = \"no_such_", 1)).unwrap();
+        }
         let have_bins = bin("hulc2model").exists() && bin("thor").exists();
-        drive("C01.export", "the real hulc2model binary on the 12 shipped project directories x {default, --use-extra}, on an empty directory, a directory without project and a missing one; thor -o on the 12 project files; compared with collect_hulc_data / Model::try_from in this process", |c| {
+        drive("C01.export", "the real hulc2model binary on the 12 shipped project directories x {default, --use-extra}, on an empty directory, a directory without project, a missing one and two directories whose project the library rejects (cut in half, broken reference); the same directory given with a trailing slash and as a relative path; thor -o on the 12 project files, into a new file and over an existing longer one; compared with collect_hulc_data / Model::try_from in this process", |c| {
             c.check("C01.tools_built", have_bins, || format!("hulc2model / thor not found in {:?}", std::env::var("VERIF_BIN_DIR")));
             c.check("C01.corpus", dirs.len() >= 12, || format!("{} project directories", dirs.len()));
             if !have_bins {
                 return;
             }
-            let k = c.pick(dirs.len() + 3);
+            let k = c.pick(dirs.len() + 5);
             let mode = c.pick(3);
             if k >= dirs.len() {
-                // no project here
-                let dir = [empty.clone(), other.clone(), empty.join("no-such-dir")][k - dirs.len()].to_string_lossy().to_string();
+                // no (convertible) project here
+                let dir = [empty.clone(), other.clone(), empty.join("no-such-dir"), cut.clone(), broken.clone()][k - dirs.len()].to_string_lossy().to_string();
                 if mode == 2 {
                     return;
                 }
@@ -119,6 +129,16 @@ mod n {
                         let loaded = Model::from_json(&stdout);
                         let want = &model;
                         c.check("C01.same_model", matches!(&loaded, Ok(m) if format!("{:?}", m) == format!("{:?}", want)), || format!("{} extra={}: standard output does not load as the model the library yields ({})", name, extra, loaded.as_ref().err().map(|e| e.to_string()).unwrap_or_else(|| "different model".to_string())));
+                        // the directory written in another way names the same project: same document
+                        let mut slash = Command::new(bin("hulc2model"));
+                        let mut rel = Command::new(bin("hulc2model"));
+                        if extra {
+                            slash.arg("--use-extra");
+                            rel.arg("--use-extra");
+                        }
+                        let out_slash = slash.arg(format!("{}/", dir)).output().expect("spawn hulc2model");
+                        let out_rel = rel.current_dir(dirs[k].parent().unwrap()).arg(&name).output().expect("spawn hulc2model");
+                        c.check("C01.path_shapes", out_slash.status.success() && out_rel.status.success() && out_slash.stdout == out.stdout && out_rel.stdout == out.stdout, || format!("{} extra={}: `{}/` exits {:?} ({} bytes), relative `{}` exits {:?} ({} bytes), absolute path gave {} bytes", name, extra, dir, out_slash.status.code(), out_slash.stdout.len(), name, out_rel.status.code(), out_rel.stdout.len(), out.stdout.len()));
                         c.nontrivial(format!("{} {}", name, extra));
                         c.sample(|| format!("{} extra={}: exit 0, {} bytes, {} walls, {} overrides", name, extra, stdout.len(), want.walls.len(), want.overrides.walls.len() + want.overrides.windows.len()));
                     }
@@ -133,18 +153,25 @@ mod n {
                 };
                 let outdir = tmp_dir(&format!("c01-thor-{}", k));
                 let outfile = outdir.join("modelo.json");
+                // the file named with -o may already exist (an earlier, larger export): it must end up holding exactly the model
+                let prefill = c.flag();
                 let _ = std::fs::remove_file(&outfile);
+                if prefill {
+                    std::fs::write(&outfile, "x".repeat(want.len() + 4096)).unwrap();
+                }
                 let out = Command::new(bin("thor")).arg(&file).arg("-o").arg(&outfile).current_dir(&outdir).output().expect("spawn thor");
                 let got = std::fs::read_to_string(&outfile).unwrap_or_default();
                 c.check("C01.thor.exit_zero", out.status.success(), || format!("thor {}: exit {:?}", name, out.status.code()));
                 c.check("C01.thor.same_json", got.trim_end() == want.trim_end(), || format!("thor {} -o: file ({} bytes) differs from the library's model JSON ({} bytes)", name, got.len(), want.len()));
                 let _ = std::fs::remove_dir_all(&outdir);
-                c.nontrivial(format!("thor {}", name));
+                c.nontrivial(format!("thor {} {}", name, prefill));
                 c.sample(|| format!("thor {} -o: {} bytes, identical to the library's JSON", name, got.len()));
             }
         });
         let _ = std::fs::remove_dir_all(&empty);
         let _ = std::fs::remove_dir_all(&other);
+        let _ = std::fs::remove_dir_all(&cut);
+        let _ = std::fs::remove_dir_all(&broken);
     }
 
     // ---- C19: damaged result files (KyGananciasSolares.txt, NewBDL_O.tbl) read through collect_hulc_data -------
